@@ -19,6 +19,12 @@ CHECKS = {
         text="For every history within the bound the final registry graph is walked together with the samples; each widening in the graph must be justified by a routed value. Exhaustive within the bound.",
         note="Trusted: routing walk of mc/ir.py (lenient: a value admitted by two union members witnesses both); values C01 finds unroutable are skipped.",
         ref="4/C02"),
+    "C05": dict(
+        engine="E2-graph-enumerator",
+        technique="exhaustive enumeration of all labelled similarity graphs on <=5/6 models (table-driven comparator) x 3 reference shapes, and all families of <=3/4 key sets x shipped comparators, through the real merge_models(); union-find reference partition",
+        text="Every similarity graph up to the bound is realised as a registry and merged by the real code; resulting models, fields, returned replacement list and every pointer (graph and bookkeeping) are compared with the connected components computed independently.",
+        note="Trusted: union-find + relation written in props/c05.py; closure bugs needing diameter >5 and comparators other than the shipped three are outside the bound.",
+        ref="4/C05"),
     "C07": dict(
         engine="E1-history-tree",
         technique="bounded exhaustive enumeration of all sequences per support set (all permutations and duplication patterns up to length 3/4) on the real pipeline; canonical-graph equality",
@@ -31,6 +37,12 @@ CHECKS = {
         text="Every sequence/multiset of JSON values within the bound is run through the real simplifier; each reached type is checked against the normal-form rules and re-simplified in place. Exhaustive within the alphabet and length bound, no sampling.",
         note="Trusted: the reference normal-form predicates in mc/ir.py; operands limited to the 46-value alphabet, length <=3 (4 over atoms).",
         ref="4/C08"),
+    "C09": dict(
+        engine="E1-history-tree",
+        technique="exhaustive enumeration of a string grammar (5.1k strings) x 179 registry configurations through the real _detect_type, all argument subsets through resolve/generate, all names through remove_by_name, round trip for every accepted pair",
+        text="Every grammar string is classified by the real detector under every registry subset/order and compared with an accept matrix obtained from the parsers themselves; resolve is checked against the same matrix; round trips are executed for every accepted (string, type).",
+        note="Trusted: each type's own parser is the specification of 'accepts'; strings outside the grammar and user-defined types are out of scope.",
+        ref="4/C09"),
 }
 
 PENDING = {
@@ -72,6 +84,8 @@ def main():
         "engines": [
             {"name": "E1-history-tree", "path": "mc/core.py", "serves_properties": ["C01", "C02", "C07", "C08", "C09", "C10", "C13", "C18"],
              "kind_free_text": "stateless bounded-exhaustive explorer of operation/sample sequences on the real implementation, 16 forked workers"},
+            {"name": "E2-graph-enumerator", "path": "mc/core.py", "serves_properties": ["C03", "C04", "C05", "C11", "C12"],
+             "kind_free_text": "exhaustive enumeration of graph-shaped inputs / similarity graphs / key strings crossed with frameworks, layouts and options, executed on the real implementation"},
         ],
         "checks": checks,
         "not_applicable": na,
